@@ -381,6 +381,33 @@ func (rn *runner) searchList(rc *realCorpus, ctx []*q1q.Shard, q query.Q, viaDir
 				if rl.Stats.Repos != len(got) {
 					goVerdict = fmt.Sprintf("Stats.Repos = %d, %d repositories", rl.Stats.Repos, len(got))
 				}
+				// the ReposMap form of the same listing: the same repositories, by id, each once
+				if goVerdict == "ok" {
+					ids := map[uint32]bool{}
+					for _, e := range rl.Repos {
+						ids[e.Repository.ID] = true
+					}
+					rm, err := func() (rl *zoekt.RepoList, err error) {
+						defer func() {
+							if r := recover(); r != nil {
+								err = fmt.Errorf("panic: %v", r)
+							}
+						}()
+						return rc.sharded.List(context.Background(), q, &zoekt.ListOptions{Field: zoekt.RepoListFieldReposMap})
+					}()
+					if err != nil {
+						goVerdict = "ReposMap listing failed: " + clean(err.Error())
+					} else {
+						if len(rm.ReposMap) != len(ids) || len(rm.Repos) != 0 || rm.Stats.Repos != len(ids) {
+							goVerdict = fmt.Sprintf("ReposMap listing: %d map entries, %d list entries, Stats.Repos=%d; Repos listing has %d repositories", len(rm.ReposMap), len(rm.Repos), rm.Stats.Repos, len(ids))
+						}
+						for id := range rm.ReposMap {
+							if !ids[id] {
+								goVerdict = fmt.Sprintf("ReposMap listing has repository id %d, Repos listing does not", id)
+							}
+						}
+					}
+				}
 				if goVerdict != "ok" {
 					key = goKey(q)
 					if key == "union-differs" {
@@ -672,7 +699,7 @@ func main() {
 	sg := &q1q.SGen{R: r, IDs: ids}
 
 	// ---- sel: abstract shards
-	nSel := f.N(2500, 40000)
+	nSel := f.N(2500, 80000)
 	for i := 0; i < nSel; i++ {
 		ctx := sg.Corpus(4, true)
 		for _, s := range ctx {
@@ -734,7 +761,7 @@ func main() {
 	}
 
 	// ---- search / list: real shards
-	nCorpora := f.N(10, 120)
+	nCorpora := f.N(10, 200)
 	for i := 0; i < nCorpora; i++ {
 		names := append([]string(nil), q1q.RepoNames...)
 		gen.Shuffle(r, names)
